@@ -122,6 +122,10 @@ main (void)
 #endif
 		VASSERT (paf24_seek (psf, SFM_READ, nd_seek) == nd_seek, "seek returns the requested frame") ;
 		start = nd_seek ;
+#else
+		/* the read wrappers (sf_read_*) issue psf->seek (SFM_READ, read_current) before the first codec read
+		** (paf24_init leaves last_op = 0 for exactly this reason): the first block is decoded by that seek */
+		VASSERT (paf24_seek (psf, SFM_READ, 0) == 0, "seek to the start") ;
 #endif
 		VASSUME (start + nd_len / CH <= 10 * (NB - 1)) ;	/* the request ends before the last block (see above) */
 		for (j = 0 ; j < LM + 2 ; j++) out [j] = 0 ;
